@@ -48,12 +48,13 @@ ASSUMPTIONS = [
     "finite inputs only (NaN means 'not given' in the C front end), G>0, masses>=0",
     "the variadic C entry point is driven through ctypes (doubles, uint32, by-value reb_particle; SysV x86-64 ABI)",
 ]
-CLASSES = ["kepler/elliptic", "kepler/hyperbolic", "kepler/near_parabolic", "kepler/M0", "kepler/big",
+CLASSES = ["pal_kepler/pal_e<0.3", "pal_kepler/pal_0.3<=e<0.8", "pal_kepler/pal_e>=0.8", "pal_kepler/pal_near_pericentre",
+           "forward/pal_polar", "kepler/elliptic", "kepler/hyperbolic", "kepler/near_parabolic", "kepler/M0", "kepler/big",
            "forward/hyperbolic", "forward/retrograde", "forward/near_planar", "forward/near_circular",
            "forward/pal", "forward/P", "forward/pomega", "forward/parabolic_cancellation", "forward/reject", "forward/anom:f",
            "forward/anom:M", "forward/anom:E", "forward/anom:l", "forward/anom:theta", "forward/anom:T",
            "readback/hyperbolic", "readback/retrograde", "readback/planar_branch", "readback/min_ecc_branch",
-           "readback/near_parabolic", "readback/pericentre", "grammar/accept", "grammar/reject",
+           "readback/near_parabolic", "readback/pericentre", "readback/pal_roundtrip", "grammar/accept", "grammar/reject",
            "grammar/primary_pal", "grammar/pal_without_orbit"]
 
 # ---------------------------------------------------------------------------------------------------------
@@ -131,7 +132,29 @@ def pal_case(draw):
             "pal": True}
 
 
-forward_case = st.one_of(classical_case(), classical_case(), pal_case())
+# Pal elements dense in eccentricity and in phase relative to pericentre: e uniform, pomega uniform,
+# l - pomega uniform or within 10^-u of 0 / 2 pi / pi (both sides)
+pal_phase = st.one_of(S.floats(0.0, 2 * PI), S.floats(0.0, 2 * PI), pm(S.logfloats(1e-12, 1.0)),
+                      pm(S.logfloats(1e-12, 1.0)).map(lambda x: 2 * PI + x), pm(S.logfloats(1e-9, 1.0)).map(lambda x: PI + x),
+                      st.sampled_from([0.0, 2 * PI, PI]))
+pal_ecc = st.one_of(S.floats(0.25, 0.99), S.floats(0.25, 0.99), S.floats(0.0, 0.99), S.floats(0.8, 0.99),
+                    st.sampled_from([0.29, 0.3, 0.31, 0.5, 0.84, 0.9, 0.95]))
+
+
+@st.composite
+def pal_polar_case(draw):
+    c = draw(pal_case())
+    e, pom, dl = draw(pal_ecc), draw(S.floats(0.0, 2 * PI)), draw(pal_phase)
+    c.update(h=e * math.sin(pom), k=e * math.cos(pom), l=pom + dl, polar=[e, pom, dl])
+    if c["a"] <= 0:
+        c["a"] = 1.0
+    return c
+
+
+forward_case = st.one_of(classical_case(), classical_case(), pal_case(), pal_polar_case())
+
+pal_kepler_case = st.fixed_dictionaries({"e": pal_ecc, "pomega": st.one_of(S.floats(0.0, 2 * PI), st.sampled_from([0.0, PI / 2, PI])),
+                                         "dl": pal_phase})
 
 kepler_case = st.fixed_dictionaries({
     "fn": st.sampled_from(["M_to_E", "E_to_f", "M_to_f"]),
@@ -319,6 +342,58 @@ def run_kepler(c, ctx):
                         % (fn, e, x, got, mp.nstr(O.wrap_0(ref), 20), err, tol), e=e, x=x)
 
 
+def run_pal_kepler(c, ctx):
+    """reb_tools_solve_kepler_pal(h, k, lambda) -> (p, q) = (e sin E, e cos E), E - e sin E = lambda - pomega."""
+    import mpmath as mp
+    from ..oracles import c11_elements_mp as O
+    rebound, cl = lib()
+    e, pom, dl = c["e"], c["pomega"], c["dl"]
+    h, k, lam = e * math.sin(pom), e * math.cos(pom), pom + dl
+    pp, qq = ctypes.c_double(), ctypes.c_double()
+    fn = cl.reb_tools_solve_kepler_pal
+    fn.restype = None
+    fn(ctypes.c_double(h), ctypes.c_double(k), ctypes.c_double(lam), ctypes.byref(pp), ctypes.byref(qq))
+    got = (pp.value, qq.value)
+
+    def ref(h_, k_, l_):
+        h_, k_, l_ = O.F(h_), O.F(k_), O.F(l_)
+        e_ = mp.sqrt(h_ * h_ + k_ * k_)
+        if e_ == 0:
+            return (O.F(0), O.F(0))
+        E = O.kepler_E(e_, l_ - mp.atan2(h_, k_))
+        return (e_ * mp.sin(E), e_ * mp.cos(E))
+    r0 = ref(h, k, lam)
+    er = float(mp.sqrt(O.F(h) ** 2 + O.F(k) ** 2))
+    ctx.cls("pal_e<0.3" if er < 0.3 else ("pal_e>=0.8" if er >= 0.8 else "pal_0.3<=e<0.8"))
+    near = abs(math.remainder(dl, 2 * PI)) < 0.7
+    if near:
+        ctx.cls("pal_near_pericentre")
+    if not all(math.isfinite(x) for x in got):
+        raise Violation("reb_tools_solve_kepler_pal(h=%r, k=%r, lambda=%r) = %r" % (h, k, lam, got))
+    hh = 2 * EPS
+    cond = 0.0
+    for i_, v in enumerate((h, k, lam)):
+        if v == 0:
+            continue
+        a_ = [h, k, lam]
+        a_[i_] = O.F(v) * (1 + hh)
+        r1 = ref(*a_)
+        cond += float(mp.sqrt((r1[0] - r0[0]) ** 2 + (r1[1] - r0[1]) ** 2)) / hh
+    # lambda is an angle: known to eps 2pi absolutely; the solver's stopping residual is 1e-15 absolutely
+    cabs = 0.0
+    for sg in (1, -1):
+        r1 = ref(h, k, O.F(lam) + sg * O.F(2e-15))
+        cabs = max(cabs, float(mp.sqrt((r1[0] - r0[0]) ** 2 + (r1[1] - r0[1]) ** 2)))
+    tol = K * EPS * (cond + 1.0) + 4 * cabs
+    err = float(mp.sqrt((O.F(got[0]) - r0[0]) ** 2 + (O.F(got[1]) - r0[1]) ** 2))
+    ctx.stat_max("pal_kepler_err_over_tol", err / tol)
+    if err > tol:
+        raise Violation("reb_tools_solve_kepler_pal(h=%r, k=%r, lambda=%r) = (p=%r, q=%r), Kepler's equation gives (%s, %s): "
+                        "error %.3e, allowed %.3e (e=%.4f, lambda-pomega=%.4g)"
+                        % (h, k, lam, got[0], got[1], mp.nstr(r0[0], 17), mp.nstr(r0[1], 17), err, tol, er, dl), e=er, dl=dl)
+    ctx.nontrivial(near or er >= 0.3)
+
+
 # ---------------------------------------------------------------------------------------------------------
 # sub-check: elements -> Cartesian through both front ends
 
@@ -443,7 +518,7 @@ def run_forward(c, ctx):
     known_nonfinite = False
     if pal:
         kw, reason, known_nonfinite = pal_kw(c)
-        tags = {"pal"}
+        tags = {"pal", "pal_polar"} if c.get("polar") else {"pal"}
     else:
         kw, reason, tags = classical_kw(c)
         known_nonfinite = reason == "a=0"
@@ -805,6 +880,12 @@ def run_readback(c, ctx):
         c2 = dict(common)
         c2.pop("a")
         sets.append(("P,omega,f", dict(c2, P=got["P"], omega=got["omega"], f=got["f"]), ("omega", "f")))
+    # Pal elements (bound prograde orbits away from the coordinate singularity at inc = pi; lambda = Omega + omega + M = o.l)
+    pal_ok = (not hyp) and pro and not near_switch and er < 0.999 and all(math.isfinite(tol[k_]) for k_ in ("pal_h", "pal_k", "pal_ix", "pal_iy"))
+    if pal_ok:
+        ctx.cls("pal_roundtrip")
+        sets.append(("pal", {"m": m, "a": got["a"], "h": got["pal_h"], "k": got["pal_k"], "ix": got["pal_ix"],
+                             "iy": got["pal_iy"], "l": got["l"]}, ("pal",)))
     # Allowed deviation: the reference elements moved by the tolerance of each reported element that the
     # parameterisation uses (one at a time, both signs, exact map in mpmath), plus the allowances of the forward map.
     mu_ = ax["mu"]
@@ -849,6 +930,18 @@ def run_readback(c, ctx):
     def budget(name, kw):
         """Perturbations implied by the tolerance of every reported element the parameterisation reads, expressed in
         the constructor's own variables (a, e, inc, Omega, omega, and f or M or E)."""
+        if name == "pal":
+            # (h, k) -> e and pomega (lambda fixed: omega += d, M -= d); (ix, iy) -> inc and Omega (pomega fixed:
+            # Omega += d, omega -= d); lambda -> M
+            thk = tol["pal_h"] + tol["pal_k"]
+            tixy = tol["pal_ix"] + tol["pal_iy"]
+            ch, sh = math.cos(r["inc"] / 2), math.sin(r["inc"] / 2)
+            out = [delta(tol["a"], a=1.0), delta(thk, e=1.0),
+                   delta(thk / er if er > 0 else float("inf"), omega=1.0, M=-1.0) if er > thk else (float("inf"), float("inf")),
+                   delta(tixy / ch, inc=1.0),
+                   (delta(tixy / (2 * sh), Omega=1.0, omega=-1.0) if 2 * sh > tixy else delta(2 * PI, Omega=1.0, omega=-1.0)),
+                   delta(tol["l"] + absM, M=1.0)]
+            return sum(x[0] for x in out), sum(x[1] for x in out)
         anom = [k_ for k_ in ("f", "M", "E", "T", "theta", "l") if k_ in kw][0]
         var = {"f": "f", "theta": "f", "M": "M", "T": "M", "l": "M", "E": "E"}[anom]
         out = [delta(tol["e"], e=1.0), delta(tol["inc"], inc=1.0)]
@@ -1073,6 +1166,7 @@ def run_grammar(c, ctx):
 def subs(tier):
     return [
         Sub("kepler", run_kepler, strategy=kepler_case, quick=12000, thorough=400000, shards_quick=4, shards_thorough=16),
+        Sub("pal_kepler", run_pal_kepler, strategy=pal_kepler_case, quick=3000, thorough=100000, shards_quick=4, shards_thorough=16),
         Sub("forward", run_forward, strategy=forward_case, quick=6000, thorough=200000, shards_quick=8, shards_thorough=16),
         Sub("readback", run_readback, strategy=classical_case(readback=True), quick=4000, thorough=100000,
             shards_quick=8, shards_thorough=16),
